@@ -67,6 +67,43 @@ fn main() {
         }
         if got != model { fail(format!("edges of the built graph {got:?} differ from the accepted edges with their latest kinds {model:?} (true = Logic)"), &desc); }
     }
+    // large batches: add_logic_edges / add_contains_edges with 40 pairs in one call, pairs repeated inside the batch, pairs already
+    // present, and a cycle-closing pair at a random position (the pairs before it stay, the call is refused)
+    for round in 0..300 {
+        let n = 8 + rng.below(40) as usize;
+        let mut b = FnGraphBuilder::new();
+        let ids: Vec<FnId> = (0..n).map(|i| b.add_fn(Acc { id: i, reads: vec![], writes: vec![] })).collect();
+        let mut model: BTreeMap<(usize, usize), bool> = BTreeMap::new();
+        let mut desc = format!("large-batch round {round}: n={n}");
+        for call in 0..3 {
+            let logic = rng.below(2) == 0;
+            let with_cycle = rng.below(3) == 0;
+            let mut pairs: Vec<(usize, usize)> = vec![];
+            for k in 0..40 {
+                if k > 0 && rng.below(5) == 0 { let p = pairs[rng.below(pairs.len() as u64) as usize]; pairs.push(p); continue; } // repeat inside the batch
+                let x = rng.below(n as u64 - 1) as usize; let y = x + 1 + rng.below((n - x - 1) as u64) as usize;
+                pairs.push((x, y));
+            }
+            if with_cycle { let k = rng.below(40) as usize; let (x, y) = pairs[rng.below(40) as usize]; pairs[k] = (y, x); }
+            desc += &format!("; call {call}: {} 40 pairs {pairs:?}", if logic { "add_logic_edges" } else { "add_contains_edges" });
+            let mut want_err = false;
+            for &(x, y) in &pairs {
+                if x == y || reach(&model, y, x, n) { want_err = true; break; }
+                model.insert((x, y), logic);
+            }
+            let arr: [(FnId, FnId); 40] = std::array::from_fn(|k| (ids[pairs[k].0], ids[pairs[k].1]));
+            let got_err = if logic { b.add_logic_edges(arr).is_err() } else { b.add_contains_edges(arr).is_err() };
+            if got_err != want_err { fail(format!("call {call} returned {} but the model says {}", if got_err { "WouldCycle" } else { "Ok" }, if want_err { "WouldCycle" } else { "Ok" }), &desc); }
+        }
+        let g = match std::panic::catch_unwind(std::panic::AssertUnwindSafe(|| b.build())) { Ok(g) => g, Err(_) => fail("build panicked".into(), &desc) };
+        let mut got: BTreeMap<(usize, usize), bool> = BTreeMap::new();
+        for e in g.graph.raw_edges() {
+            let k = (e.source().index(), e.target().index());
+            let logic = match e.weight { Edge::Logic => true, Edge::Contains => false, Edge::Data => fail(format!("unexpected Data edge {k:?}"), &desc) };
+            if got.insert(k, logic).is_some() { fail(format!("two edges for the ordered pair {k:?}"), &desc); }
+        }
+        if got != model { fail("edges of the built graph differ from the accepted pairs with their latest kinds".to_string(), &desc); }
+    }
     // growing builders: functions and edges interleaved up to 300 functions; each new function is linked to / from earlier
     // ones right away, and pairs given before are given again later with either kind (state that is resized or indexed
     // by the number of functions goes through every size on the way)
@@ -110,5 +147,5 @@ fn main() {
             fail(format!("edges of the built graph differ from the accepted edges with their latest kinds, e.g. {diff:?} (true = Logic)"), &desc);
         }
     }
-    println!("OK c16_edges: 4000 call sequences on up to 6 functions, 12 growing builders of 70 / 140 / 300 functions");
+    println!("OK c16_edges: 4000 call sequences on up to 6 functions, 300 builders fed batches of 40 pairs with repeats, 12 growing builders of 70 / 140 / 300 functions");
 }
